@@ -284,7 +284,7 @@ func (d *syslogRFC5424Decoder) parseStructuredData(data []byte) (SyslogSD, int, 
 		shiftData(1)
 
 		idx = bytes.IndexByte(data, ' ')
-		if idx < 2 {
+		if idx < 1 {
 			return nil, 0, false
 		}
 		sdID = string(data[:idx])
